@@ -13,13 +13,15 @@ GRIDS = (
     + [("cart2", list(p)) for p in itertools.product([False, True], repeat=2)]
     + [("cart3", list(p)) for p in itertools.product([False, True], repeat=3)]
     + [("polar", []), ("spherical", []), ("cyl", [False]), ("cyl", [True])]
+    # strongly anisotropic cells: the equal-volume sphere of a few-cell object covers no cell centre at all
+    + [("cart2a", [False, True]), ("cyla", [False])]
 )
 MODES = [0, 1, 2, 3, 4, 8]
 WIDTHS = [None, 0.7]
 THRESHOLDS = [0.5, "auto", "mean", "otsu"]
-IMAGES = ["one", "two", "empty", "speck", "one+speck"]
+IMAGES = ["one", "two", "three", "empty", "speck", "one+speck"]
 # a single bright cell (an object smaller than the grid resolution), far away from the rendered droplets
-SPECK = {"cart1": (13,), "cart2": (10, 12), "cart3": (6, 6, 7), "polar": (0,), "spherical": (0,), "cyl": (0, 14)}
+SPECK = {"cart1": (13,), "cart2": (10, 12), "cart3": (6, 6, 7), "polar": (0,), "spherical": (0,), "cyl": (0, 14), "cart2a": (slice(9, 11), 44), "cyla": (0, 120)}
 
 
 def make_grid(fam, per):
@@ -31,6 +33,10 @@ def make_grid(fam, per):
         return CartesianGrid([(-1.0, 11.0), (2.0, 12.5)], [12, 14], periodic=per)
     if fam == "cart3":
         return CartesianGrid([(0.0, 8.0), (-4.0, 4.0), (1.0, 10.0)], [8, 8, 9], periodic=per)
+    if fam == "cart2a":
+        return CartesianGrid([(-1.0, 11.0), (2.0, 14.0)], [12, 48], periodic=per)  # cells 1 x 0.25
+    if fam == "cyla":
+        return CylindricalSymGrid(8.0, (-2.0, 14.0), (8, 128), periodic_z=per[0])  # cells 1 x 0.125
     if fam == "polar":
         return PolarSymGrid(12.0, 12)
     if fam == "spherical":
@@ -46,17 +52,21 @@ def make_field(grid, fam, image):
     if image == "empty":
         return ScalarField(grid, 0.0), 0
     if fam == "cart1":
-        ds = [DiffuseDroplet([3.2], 2.4, 0.8), DiffuseDroplet([10.9], 1.9, 0.8)]
+        ds = [DiffuseDroplet([2.2], 1.6, 0.6), DiffuseDroplet([7.4], 1.4, 0.6), DiffuseDroplet([11.9], 1.2, 0.5)]
     elif fam == "cart2":
-        ds = [DiffuseDroplet([2.7, 5.4], 2.2, 0.8), DiffuseDroplet([8.1, 9.2], 1.8, 0.8)]
+        ds = [DiffuseDroplet([2.7, 5.4], 2.2, 0.8), DiffuseDroplet([8.1, 9.2], 1.8, 0.8), DiffuseDroplet([8.6, 3.9], 1.5, 0.6)]
+    elif fam == "cart2a":
+        ds = [DiffuseDroplet([2.7, 5.4], 2.2, 0.8), DiffuseDroplet([8.1, 6.2], 1.8, 0.8), DiffuseDroplet([5.6, 10.4], 1.6, 0.6)]
+    elif fam == "cyla":
+        ds = [DiffuseDroplet([0.0, 0.0, 1.3], 2.2, 0.8), DiffuseDroplet([0.0, 0.0, 6.6], 1.9, 0.8), DiffuseDroplet([0.0, 0.0, 11.2], 1.1, 0.5)]
     elif fam == "cart3":
-        ds = [DiffuseDroplet([2.4, -1.6, 3.3], 1.9, 0.7), DiffuseDroplet([5.9, 1.8, 7.2], 1.6, 0.7)]
+        ds = [DiffuseDroplet([2.4, -1.6, 3.3], 1.9, 0.7), DiffuseDroplet([5.9, 1.8, 7.2], 1.6, 0.7), DiffuseDroplet([6.4, -2.4, 2.4], 1.1, 0.5)]
     elif fam == "polar":
         ds = [DiffuseDroplet([0.0, 0.0], 4.3, 0.9)]
     elif fam == "spherical":
         ds = [DiffuseDroplet([0.0, 0.0, 0.0], 4.3, 0.9)]
     else:
-        ds = [DiffuseDroplet([0.0, 0.0, 2.3], 2.9, 0.8), DiffuseDroplet([0.0, 0.0, 9.6], 2.4, 0.8)]
+        ds = [DiffuseDroplet([0.0, 0.0, 1.6], 2.2, 0.8), DiffuseDroplet([0.0, 0.0, 7.1], 1.9, 0.8), DiffuseDroplet([0.0, 0.0, 11.4], 1.2, 0.6)]
     if image in ("speck", "one+speck"):
         if image == "speck":
             field = ScalarField(grid, 0.0)
@@ -67,7 +77,7 @@ def make_field(grid, fam, image):
                 return field, None
         field.data[SPECK[fam]] = 1.0
         return field, None
-    n = 1 if image == "one" else len(ds)
+    n = {"one": 1, "two": min(2, len(ds)), "three": len(ds)}[image]
     return Emulsion(ds[:n]).get_phasefield(grid), n
 
 
@@ -76,7 +86,7 @@ class C19(Property):
     rule = (
         "Exhaustive enumeration of the configuration cube: grid family and periodicity (Cartesian 1-D x2, 2-D x4, 3-D x8 masks, polar, "
         "spherical, cylindrical x2) x modes {0,1,2,3,4,8} x interface_width {None, 0.7} x refine {off,on} x threshold rule "
-        "{0.5, auto, mean, otsu} x image {one droplet, two droplets, empty, a single bright cell, one droplet + a single bright cell}. Oracle: expected class from the request (perturbed 2D / 3D / axisymmetric "
+        "{0.5, auto, mean, otsu} x image {one, two, three droplets, empty, a single bright cell / few-cell speck, one droplet + speck}; two further grids with strongly anisotropic cells (Cartesian 1 x 0.25, cylindrical 1 x 0.125). Oracle: expected class from the request (perturbed 2D / 3D / axisymmetric "
         "with exactly `modes` amplitudes, else Diffuse when a width is given or refinement is on, else Spherical; ValueError for modes "
         "in 1-D), exact type, dimension, carried width, one shared dtype and formable Emulsion.data. Non-trivial = configuration with "
         ">= 1 located droplet; distinct = distinct configuration."
@@ -103,9 +113,10 @@ class C19(Property):
         return jobs
 
     def expand(self, job):
+        aniso = job["family"] in ("cart2a", "cyla")  # the two extra grids: reduced product (two threshold rules, four images)
         for width in WIDTHS:
-            for thr in THRESHOLDS:
-                for image in IMAGES:
+            for thr in THRESHOLDS[:2] if aniso else THRESHOLDS:
+                for image in ["one", "three", "speck", "one+speck"] if aniso else IMAGES:
                     yield {"family": job["family"], "periodic": job["periodic"], "modes": job["modes"], "refine": job["refine"], "interface_width": width, "threshold": thr, "image": image}
 
     def check(self, spec, ctx: Ctx):
@@ -134,7 +145,7 @@ class C19(Property):
         if modes > 0:
             if grid.dim == 2:
                 exp = PerturbedDroplet2D
-            elif fam == "cyl":
+            elif fam in ("cyl", "cyla"):
                 exp = PerturbedDroplet3DAxisSym
             else:
                 exp = PerturbedDroplet3D
